@@ -2038,6 +2038,8 @@ class C10(Check):
             '[+-]FLAGS[.SILENT], EXPUNGE, UID EXPUNGE, COPY, MOVE, FETCH of '
             'seen-setting and peeking items, CLOSE, SELECT/EXAMINE, and '
             'commands that must be refused) generated from the model state, '
+            'with another connection editing flags in the selected mailbox '
+            'right before one FETCH in five, '
             'sequence/UID sets drawn from shapes single / range / reversed / '
             '* / 1:* / *:n / n:* / duplicates / overlapping / lists / '
             'out-of-range / 4294967295 / expunged and never-assigned UIDs, '
